@@ -339,6 +339,8 @@ pub struct Interpreter {
 
     /// Cancelled order IDs
     pub(crate) cancelled_orders: Vec<crate::OrderId>,
+    /// Orders whose cancellation has been recorded during this run (each is reported once)
+    cancelled_ever: FxHashSet<u64>,
 
     /// Suspended VM state waiting for order response from host
     pub(crate) suspended_for_order: Option<bytecode_vm::VmOrderSuspension>,
@@ -514,6 +516,7 @@ impl Interpreter {
             pending_orders: Vec::new(),
             order_responses: FxHashMap::default(),
             cancelled_orders: Vec::new(),
+            cancelled_ever: FxHashSet::default(),
             suspended_for_order: None,
             // Async context management
             wait_graph: WaitGraph::new(),
@@ -1479,6 +1482,17 @@ impl Interpreter {
         self.exports.clear();
     }
 
+    /// Record that `id` is cancelled; the host hears about each cancelled order exactly once,
+    /// however many times the program (a lost race, then a rejection of the same promise,
+    /// then __cancelOrder__) gives it up. Returns false if it was recorded before.
+    pub(crate) fn note_cancelled_order(&mut self, id: crate::OrderId) -> bool {
+        if !self.cancelled_ever.insert(id.0) {
+            return false;
+        }
+        self.cancelled_orders.push(id);
+        true
+    }
+
     /// Starting a new run abandons whatever the previous one was still waiting for: a
     /// continuation suspended on an order or a promise, orders not yet reported, responses not
     /// yet consumed, a program or modules waiting for imports. None of it may resume inside (or
@@ -1489,6 +1503,7 @@ impl Interpreter {
         self.promise_ids.clear();
         self.pending_orders.clear();
         self.cancelled_orders.clear();
+        self.cancelled_ever.clear();
         self.order_responses.clear();
         self.pending_program = None;
         self.pending_module_sources.clear();
